@@ -41,10 +41,10 @@ theorem bad_selector_is_syntax_error (blk allowScopes periods : Bool) (ts : List
 /-- The value of a binding does not depend on its layout (re-export of the value-level theorem:
     any two renderings of one literal tree parse to the same value). -/
 theorem value_layout_irrelevant (l₁ l₂ : L) (r₁ r₂ : List Token) (h₁ : Clean r₁) (h₂ : Clean r₂)
-    (hv : val l₁ = val l₂) :
+    (n₁ : NoStr r₁) (n₂ : NoStr r₂) (hv : val l₁ = val l₂) :
     (parseValue false (size l₁) (render l₁ ++ r₁)).toOption.map (·.1) =
     (parseValue false (size l₂) (render l₂ ++ r₂)).toOption.map (·.1) :=
-  C02.layout_irrelevant l₁ l₂ r₁ r₂ h₁ h₂ hv
+  C02.layout_irrelevant l₁ l₂ r₁ r₂ h₁ h₂ n₁ n₂ hv
 
 /-- Comments, blank lines and (outside blocks) indentation between statements are skipped: they
     never become part of a statement. -/
